@@ -104,29 +104,41 @@ theorem C04_filter_exact (d : Defects) (a b : Scalar) (ha : a.transparent = true
     (h : filterMatches d none (some a) (.param b) = true) : a = b := by
   cases b <;> simp_all [filterMatches] <;> exact sqlEq_eq _ _ ha h
 
-/-! ## Text is never executed: the structure of the statement -/
+/-! ## Text is never executed: the structure of the statement
 
-/-- **C04 (structure, intended behaviour) — part 1.** No piece of the statement is text written between
-    quotes, and every spliced piece (a numeral) is lexically closed. -/
-theorem C04_structure_closed (q : TopQ) : ∀ t ∈ sqlTokens Defects.none q, t.closed = true := by
+Since the fixes d527622 (String/Base64 defaults of a filtered field are bound) and cedb2ae (a variable never
+shares the slot of a literal) the two statement-level deviations are off in `Defects.asImplemented`: the full
+statements below hold for the code as it is. `Defects.beforeFixes` is the code before those commits; the
+`C04_breaks_*` theorems about it are kept as regression witnesses (their replays are in `corpus/C04`). -/
+
+/-- the `Defects` values whose statements are value independent: the intended behaviour and the code as it is -/
+def Defects.structural (d : Defects) : Prop := d.varAliasesLiteral = false ∧ d.defaultSpliced = false
+
+theorem structural_none : Defects.none.structural := ⟨rfl, rfl⟩
+theorem structural_asImplemented : Defects.asImplemented.structural := ⟨rfl, rfl⟩
+
+/-- **C04 (structure) — part 1.** In the statement of any query (the code as it is) no text is written
+    between quotes, and every spliced piece — a numeral — is lexically closed. -/
+theorem C04_structure_closed (q : TopQ) : ∀ t ∈ sqlTokens Defects.asImplemented q, t.closed = true := by
   intro t ht
   cases t with
-  | quoted s => exact absurd (sqlTokens_quoted Defects.none q s ht).1 (by decide)
+  | quoted s => exact absurd (sqlTokens_quoted Defects.asImplemented q s ht).1 (by decide)
   | _ => rfl
 
-/-- **C04 (structure, intended behaviour) — part 2.** The statement of a query and the statement of its
-    skeleton (every parameter value is outside the query anyway; every literal and default value replaced by
-    an empty one of its kind) consist of the same tokens up to the digits of spliced numerals, with the
-    same `?n` numbering and the same binding order: no value decides the structure. -/
-theorem C04_structure_invariant (q : TopQ) :
-    shapes (sqlTokens Defects.none q.erase) = shapes (sqlTokens Defects.none q) ∧
-    (compile Defects.none q.erase).1 = eraseParams (compile Defects.none q).1 :=
-  ⟨(compile_erase q).2, (compile_erase q).1⟩
+/-- **C04 (structure) — part 2.** The statement of a query and the statement of its skeleton (every parameter
+    value is outside the query anyway; every literal and default value replaced by an empty one of its kind)
+    consist of the same tokens up to the digits of spliced numerals, with the same `?n` numbering and the same
+    binding order: no value decides the structure. Holds for the code as it is and for the intended behaviour. -/
+theorem C04_structure_invariant (d : Defects) (hd : d.structural) (q : TopQ) :
+    shapes (sqlTokens d q.erase) = shapes (sqlTokens d q) ∧
+    (compile d q.erase).1 = eraseParams (compile d q).1 :=
+  ⟨(compile_erase d hd.1 hd.2 q).2, (compile_erase d hd.1 hd.2 q).1⟩
 
-/-- two queries with the same skeleton have statements of the same shape -/
+/-- two queries with the same skeleton have statements of the same shape (the code as it is) -/
 theorem C04_structure_same_skeleton (q q' : TopQ) (h : q.erase = q'.erase) :
-    shapes (sqlTokens Defects.none q) = shapes (sqlTokens Defects.none q') := by
-  rw [← (C04_structure_invariant q).1, ← (C04_structure_invariant q').1, h]
+    shapes (sqlTokens Defects.asImplemented q) = shapes (sqlTokens Defects.asImplemented q') := by
+  rw [← (C04_structure_invariant _ structural_asImplemented q).1,
+    ← (C04_structure_invariant _ structural_asImplemented q').1, h]
 
 /-- spliced numerals are digits with an optional sign: they cannot contain a quote, a space or any SQL
     metacharacter -/
@@ -148,18 +160,17 @@ def witnessQuery (dv : List Char) : TopQ :=
     filters := [{ name := "v", op := "=", value := .var "f", selected := false,
                   field := { name := "v", short := "34", dflt := some (.str dv), isSystem := false } }] }
 
-/-- The full statement is FALSE of the code (candidate #9): the default value `it's` of a filtered field is
-    written between quotes into the statement, where its quote ends the string. -/
+/-- Regression witness (candidate #9, fixed by d527622): before the fix the default value `it's` of a
+    filtered field was written between quotes into the statement, where its quote ends the string. -/
 theorem C04_breaks_defaultSpliced :
-    ∃ t ∈ sqlTokens Defects.asImplemented (witnessQuery "it's".toList), t.closed = false := by
+    ∃ t ∈ sqlTokens Defects.beforeFixes (witnessQuery "it's".toList), t.closed = false := by
   refine ⟨Tok.quoted "it's".toList, ?_, by decide⟩
   simp [sqlTokens, compile, entityQuery, qFieldsLoop, qFieldToks, selFieldToks, existsLoop, whereFilters,
-    filtersLoop, filterToks, filterValue, filterDefaultTok, witnessQuery, Defects.asImplemented]
+    filtersLoop, filterToks, filterValue, filterDefaultTok, witnessQuery, Defects.beforeFixes]
 
-/-- **C04_partial (structure, the code as it is).** If no String/Base64/Json default of a filtered field
-    contains a quote or a NUL, every spliced piece of the statement is lexically closed.
-    Missing with respect to the full statement: such defaults are still part of the statement text (the shape
-    is then the same, the text is not), and see `C04_breaks_varAliasesLiteral` for the numbering. -/
+/-- **C04_partial (structure, any behaviour).** If no String/Base64/Json default that the statement splices
+    contains a quote or a NUL, every spliced piece of the statement is lexically closed — what could be said
+    of the code before the fix. -/
 theorem C04_partial_structure (d : Defects) (q : TopQ)
     (guard : ∀ s, q.splices s → (Tok.quoted s).closed = true) :
     ∀ t ∈ sqlTokens d q, t.closed = true := by
@@ -177,19 +188,19 @@ def aliasQuery (lit : List Char) : TopQ :=
                 { name := "a", op := ">=", value := .var "a", selected := false,
                   field := { name := "a", short := "32", dflt := none, isSystem := false } }] }
 
-/-- The full statement is FALSE of the code in a second way: the slot of a variable is looked up by comparing
-    its name with the text of every recorded parameter, literals included. With the literal `"a"` the variable
-    `$a` receives the literal's slot `?1` (and the literal's text is bound there); with `"b"` it receives `?2`.
-    The two queries have the same skeleton. -/
+/-- Regression witness (fixed by cedb2ae): before the fix the slot of a variable was looked up by comparing its
+    name with the text of every recorded parameter, literals included. With the literal `"a"` the variable `$a`
+    received the literal's slot `?1` (and the literal's text was bound there); with `"b"` it received `?2`.
+    The two queries have the same skeleton. The code as it is gives `$a` its own slot. -/
 theorem C04_breaks_varAliasesLiteral :
     (aliasQuery "a".toList).erase = (aliasQuery "b".toList).erase ∧
-    Tok.bind 2 ∈ sqlTokens Defects.asImplemented (aliasQuery "b".toList) ∧
-    Tok.bind 2 ∉ sqlTokens Defects.asImplemented (aliasQuery "a".toList) ∧
-    (compile Defects.asImplemented (aliasQuery "a".toList)).1 = [(true, "a".toList)] ∧
-    (compile Defects.none (aliasQuery "a".toList)).1 = [(true, "a".toList), (false, "a".toList)] := by
+    Tok.bind 2 ∈ sqlTokens Defects.beforeFixes (aliasQuery "b".toList) ∧
+    Tok.bind 2 ∉ sqlTokens Defects.beforeFixes (aliasQuery "a".toList) ∧
+    (compile Defects.beforeFixes (aliasQuery "a".toList)).1 = [(true, "a".toList)] ∧
+    (compile Defects.asImplemented (aliasQuery "a".toList)).1 = [(true, "a".toList), (false, "a".toList)] := by
   refine ⟨rfl, ?_, ?_, ?_, ?_⟩ <;>
   simp [sqlTokens, compile, entityQuery, qFieldsLoop, qFieldToks, selFieldToks, existsLoop, whereFilters,
-      filtersLoop, filterToks, filterValue, aliasQuery, Defects.asImplemented, Defects.none, addParam, findSlot, tab]
+      filtersLoop, filterToks, filterValue, aliasQuery, Defects.asImplemented, Defects.beforeFixes, addParam, findSlot, tab]
 
 /-! ## The hypotheses are satisfiable by non-trivial values -/
 
